@@ -11,6 +11,7 @@ import random
 from vf.gen import bundles as gen
 from vf.oracles import bpv7
 from vf.oracles import cbor_walk as cw
+from vf.oracles import cose_bpsec as cb
 
 PROPERTY_ID = 'C02'
 RULE = ('[directed corpus also holds bundles of 21..300 canonical blocks across the CBOR head-size boundaries] ' +
@@ -79,6 +80,13 @@ def _directed():
     for btype in (6, 7, 10, 11, 12):
         for data in (b'\x40', b'\x80', b'\x00', b'\x41\x00', b'\xa0', b'\xf6', b'\x82\x01', b'\x18', b'\xff', b'', bytes(range(40, 75))):
             out.append(dict(primary=dict(base_pri), blocks=[dict(type=btype, num=4, flags=0, crc_type=1, data=data, crc=None), dict(pay)], _typed=False, _opaque=True))
+    # abstract security blocks (types 11 and 12) with and without parameters, with reserved context-flag bits, several targets/results
+    for btype in (11, 12):
+        for flags, params in ((0, []), (1, [(5, {0: 1, -1: 1})]), (3, [(5, {0: 1})]), (0x81, [(3, b'\xa0'), (4, b'\xa1\x04\x41k')]), (0x80, []), (1, [])):
+            for targets, results in (([1], [[(17, b'r1')]]), ([1, 4], [[(17, b'r1')], [(16, b'r2'), (96, b'')]])):
+                asb = cb.encode_asb(dict(targets=targets, context_id=3, flags=flags, source=('dtn://sec/' if flags != 0x80 else 'ipn:5.6'), params=params, results=results))
+                out.append(dict(primary=dict(base_pri), blocks=[dict(type=btype, num=7, flags=0, crc_type=1, data=asb, crc=None),
+                                                               dict(type=192, num=4, flags=0, crc_type=0, data=b'x', crc=None), dict(pay)], _typed=False))
     # administrative records other than status reports, including "falsy" contents; unassigned and large reason codes
     for content in (0, False, [], {}, b'', '', None, 7, [1, 2], {1: 2}, 'text'):
         for rtype in (2, 9, 65536):
@@ -185,6 +193,24 @@ def check_bundle(bundle, obs, typed):
                 if view.get(blk['num']) != exp:
                     viols.append(('d3', 'typed block %d decoded as %r, expected %r' % (blk['num'], view.get(blk['num']), exp),
                                   dict(enc=enc_orc.hex()[:400])))
+        # security blocks: the abstract security block fields as decoded
+        for bidx, blk in enumerate(bundle['blocks']):
+            if blk['type'] in (11, 12) and not opaque:
+                try:
+                    asb = cb.parse_asb(blk['data'])
+                except cb.SecError:
+                    continue
+                obs['security_blocks'] = obs.get('security_blocks', 0) + 1
+                real_sec = back.blocks[bidx].payload
+                try:
+                    got = (list(real_sec.targets), int(real_sec.context_id), int(real_sec.context_flags), str(real_sec.source),
+                           [(int(par.type_code), par.value) for par in (real_sec.parameters or [])],
+                           [[(int(res.type_code), res.value) for res in tres.results] for tres in real_sec.results])
+                except Exception as err:  # pylint: disable=broad-except
+                    got = 'not decoded as a security block (%s: %s)' % (type(real_sec).__name__, type(err).__name__)
+                want_asb = (asb['targets'], asb['context_id'], asb['flags'], asb['source'], asb['params'], asb['results'])
+                if got != want_asb:
+                    viols.append(('d3', 'security block %d decoded as %r, expected %r' % (blk['num'], got, want_asb), dict(enc=enc_orc.hex()[:400])))
         # other administrative records: record type and content as decoded
         if bundle['primary']['flags'] & bpv7.FLAG_ADMIN and not is_frag and 'admin' not in bundle:
             try:
